@@ -2,6 +2,10 @@
 package v2
 
 import (
+	"bytes"
+	"encoding/binary"
+
+	blocks "github.com/ipfs/go-block-format"
 	"github.com/ipfs/go-cid"
 	"github.com/ipld/go-ipld-prime/datamodel"
 	"github.com/ipld/go-ipld-prime/node/basicnode"
@@ -119,4 +123,98 @@ func hostileRoot() *ipldbind.GraphSyncMessageRoot {
 		g.Blocks = &l
 	}
 	return &ipldbind.GraphSyncMessageRoot{Gs2: g}
+}
+
+
+// baseMessage: small well-formed messages whose encodings are mutated.
+func baseMessage(i int) message.GraphSyncMessage {
+	switch i {
+	case 0:
+		return message.NewMessage(map[graphsync.RequestID]message.GraphSyncRequest{wrid(1): message.NewCancelRequest(wrid(1))}, nil, nil)
+	case 1:
+		r := message.NewRequest(wrid(2), wcid(0x71, 1), basicnode.NewString("s"), 7, graphsync.ExtensionData{Name: "e", Data: basicnode.NewInt(3)})
+		return message.NewMessage(map[graphsync.RequestID]message.GraphSyncRequest{wrid(2): r}, nil, nil)
+	case 2:
+		md := []message.GraphSyncLinkMetadatum{{Link: wcid(0x55, 2), Action: graphsync.LinkActionPresent}}
+		r := message.NewResponse(wrid(3), graphsync.PartialResponse, md)
+		return message.NewMessage(nil, map[graphsync.RequestID]message.GraphSyncResponse{wrid(3): r}, nil)
+	default:
+		data := []byte{9}
+		c, _ := cid.Prefix{Version: 1, Codec: 0x55, MhType: 0x00, MhLength: -1}.Sum(data)
+		b, _ := blocks.NewBlockWithCid(data, c)
+		return message.NewMessage(nil, nil, map[cid.Cid]blocks.Block{c: b})
+	}
+}
+
+// VerifWire_HostileBytes (C12): the real stream decoder (msgio varint framing,
+// DAG-CBOR tokenizer, bindnode assembly against the message schema, fromIPLD)
+// on hostile bytes: encodings of well-formed messages with MUT bytes replaced
+// by arbitrary values (solver variables), truncated at every length (with the
+// length prefix left alone or corrected), and arbitrary short payloads.  It
+// never panics; a message that decodes satisfies the ID and block-key
+// invariants.
+func VerifWire_HostileBytes() {
+	mh := NewMessageHandler()
+	var frame []byte
+	mode := verifrt.Choose("mutation", 3)
+	if only := verifrt.Param("MODE", -1); only >= 0 {
+		verifrt.Assume(mode == only)
+	}
+	switch mode {
+	case 0, 1:
+		var buf bytes.Buffer
+		err := mh.ToNet("p", baseMessage(verifrt.Choose("base", verifrt.Param("BASES", 4))), &buf)
+		verifrt.Assert(err == nil, "harness: base message does not encode")
+		frame = append([]byte{}, buf.Bytes()...)
+		if mode == 0 {
+			for k := 0; k < verifrt.Param("MUT", 1); k++ {
+				pos := verifrt.Choose("position", len(frame))
+				frame[pos] = verifrt.U8("byte")
+			}
+			verifrt.Cover("mutated")
+		} else {
+			_, plen := binary.Uvarint(frame)
+			cut := plen + verifrt.Choose("cut", len(frame)-plen)
+			payload := frame[plen:cut]
+			if verifrt.Choose("prefix-corrected", 2) == 1 {
+				frame = append(binary.AppendUvarint(nil, uint64(len(payload))), payload...)
+			} else {
+				frame = frame[:cut]
+			}
+			verifrt.Cover("truncated")
+		}
+	case 2:
+		n := 1 + verifrt.Choose("payload-length", verifrt.Param("MAXLEN", 3))
+		frame = binary.AppendUvarint(nil, uint64(n))
+		for i := 0; i < n; i++ {
+			frame = append(frame, verifrt.U8("byte"))
+		}
+		verifrt.Cover("arbitrary")
+	}
+	m, err := mh.FromNet("p", bytes.NewReader(frame))
+	if err != nil {
+		verifrt.Cover("hostile-rejected")
+		verifrt.Reached("end-hostile-bytes")
+		return
+	}
+	verifrt.Cover("hostile-accepted")
+	for _, r := range m.Requests() {
+		verifrt.Assert(len(r.ID().Bytes()) == 16, "C12 decoded request ID is not a 16-byte identifier")
+		for _, n := range r.ExtensionNames() {
+			r.Extension(graphsync.ExtensionName(n))
+		}
+	}
+	for _, r := range m.Responses() {
+		verifrt.Assert(len(r.RequestID().Bytes()) == 16, "C12 decoded response ID is not a 16-byte identifier")
+		r.Metadata().Iterate(func(cid.Cid, graphsync.LinkAction) {})
+		for _, n := range r.ExtensionNames() {
+			r.Extension(n)
+		}
+	}
+	for _, b := range m.Blocks() {
+		c := b.Cid()
+		sum, err := c.Prefix().Sum(b.RawData())
+		verifrt.Assert(err == nil && sum == c, "C12 decoded block is not keyed by the CID of its own bytes")
+	}
+	verifrt.Reached("end-hostile-bytes")
 }
